@@ -102,6 +102,14 @@ class ImgStub(_DaArrayBase):
             valid.append((_simpl(Sym(nlo)), _simpl(Sym(nhi))))
         out = ImgStub(shape, self.root, origin, valid, self.fill, self.root_shape)
         out.numpy_like = self.numpy_like
+        out.dtype = self.dtype
+        return out
+
+    def astype(self, dtype, **kw):
+        """same image, other element type (tracked, so that checks can tell in which arithmetic an image is interpolated)"""
+        out = ImgStub(self.shape, self.root, self.origin, self.valid, self.fill, self.root_shape, chunks=self.chunks if all(isinstance(c, tuple) and all(isinstance(v, (int, np.integer)) for v in c) for c in self.chunks) else None)
+        out.numpy_like = self.numpy_like
+        out.dtype = np.dtype(dtype)
         return out
 
     @property
@@ -149,6 +157,7 @@ class ImgStub(_DaArrayBase):
         fill = (mode, self)
         out = ImgStub(shape, self.root, origin, valid, fill, self.root_shape)
         out.numpy_like = self.numpy_like
+        out.dtype = self.dtype
         return out
 
 
